@@ -9,6 +9,7 @@ struct P : public colvarparse {
   using colvarparse::data_end_pos;
   using colvarparse::strip_values;
   using colvarparse::allowed_keywords;
+  using colvarparse::get_key_string_multi_value;
 };
 
 static std::string unhex(std::string const &s)
@@ -58,6 +59,26 @@ static std::string parse_flat(std::string const &schema, std::string const &conf
     } else if (kind == "I") {
       int v = 0;
       if (p.get_keyval(conf, key.c_str(), v, 0, m)) out = cvm::to_str(v);
+    } else if (kind == "U") {
+      size_t v = 0;
+      if (p.get_keyval(conf, key.c_str(), v, (size_t) 0, m)) out = cvm::to_str(v);
+    } else if (kind == "L") {
+      long v = 0;
+      if (p.get_keyval(conf, key.c_str(), v, 0L, m)) out = cvm::to_str(v);
+    } else if (kind == "J") {
+      std::vector<int> v;
+      if (p.get_keyval(conf, key.c_str(), v, std::vector<int>(), m)) {
+        out = "[";
+        for (size_t i = 0; i < v.size(); i++) out += (i ? ";" : "") + cvm::to_str(v[i]);
+        out += "]";
+      }
+    } else if (kind == "W") {
+      std::vector<std::string> v;
+      if (p.get_keyval(conf, key.c_str(), v, std::vector<std::string>(), m)) {
+        out = "[";
+        for (size_t i = 0; i < v.size(); i++) out += (i ? ";" : "") + hex(v[i]);
+        out += "]";
+      }
     } else if (kind == "B") {
       bool v = false;
       if (p.get_keyval(conf, key.c_str(), v, false, m)) out = v ? "1" : "0";
@@ -190,7 +211,6 @@ static void unit_loop()
 {
   vsim_engine eng; eng.resize(1);
   vsim_proxy *proxy = new vsim_proxy(&eng, true);
-  (void) proxy;
   std::string line;
   while (std::getline(std::cin, line)) {
     std::istringstream is(line);
@@ -235,6 +255,55 @@ static void unit_loop()
         std::vector<NItem> items = (a[1] == "-") ? std::vector<NItem>() : parse_nested_schema(a[1], pos);
         if (colvarparse::check_braces(conf, 0) != COLVARS_OK) out = "reject";
         else out = nested_level(items, conf) ? "accept" : "reject";
+      } else if (cmd == "IX") {
+        // colvarmodule::read_index_file on a file with the given bytes
+        static int ixn = 0;
+        std::string fname = "c09_index_" + cvm::to_str(++ixn) + ".ndx";
+        { std::ofstream f(fname.c_str(), std::ios::binary); f << unhex(a[0]); }
+        colvarmodule *cv = cvm::main();
+        cv->reset_index_groups();
+        int rc = cv->read_index_file(fname.c_str());
+        if (rc != COLVARS_OK || cvm::get_error() != COLVARS_OK) out = "error";
+        else {
+          out = "ok ";
+          for (size_t i = 0; i < cv->index_group_names.size(); i++) {
+            out += (i ? ";" : "") + hex(cv->index_group_names[i]) + "=";
+            for (size_t j = 0; j < cv->index_groups[i]->size(); j++) out += (j ? "," : "") + cvm::to_str((*cv->index_groups[i])[j]);
+          }
+        }
+        proxy->close_input_stream(fname);
+        cv->reset_index_groups();
+        std::remove(fname.c_str());
+      } else if (cmd == "TL") {
+        out = hex(colvarparse::to_lower_cppstr(unhex(a[0])));
+      } else if (cmd == "CA") {
+        out = (colvarparse::check_ascii(unhex(a[0])) == COLVARS_OK) ? "ok" : "error";
+      } else if (cmd == "KM") {
+        P p;
+        std::vector<std::string> data;
+        bool f = p.get_key_string_multi_value(unhex(a[0]), unhex(a[1]).c_str(), data);
+        out = (cvm::get_error() != COLVARS_OK) ? "error " : (f ? "found " : "notfound ");
+        for (size_t i = 0; i < data.size(); i++) out += (i ? "|" : "") + hex(data[i]);
+      } else if (cmd == "KV") {
+        // get_keyval<double> for the same keyword on ONE parser object: several texts and parse modes
+        P p;
+        std::string key = unhex(a[0]);
+        double v = 111.0;
+        std::istringstream cs(a[1]);
+        std::string one;
+        while (std::getline(cs, one, '|')) {
+          char mc = one[0];
+          std::string conf = unhex(one.substr(2));
+          colvarparse::Parse_Mode m = colvarparse::parse_silent;
+          if (mc == 'r') m = colvarparse::parse_required;
+          if (mc == 'q') m = colvarparse::parse_required | colvarparse::parse_restart;
+          if (mc == 'o') m = colvarparse::parse_override;
+          if (mc == 'n') m = colvarparse::parse_normal;
+          if (mc == 'd') m = colvarparse::parse_deprecated;
+          cvm::clear_error();
+          bool f = p.get_keyval(conf, key.c_str(), v, 222.0, m);
+          out += (out.size() ? ";" : "") + std::string(f ? "1" : "0") + "/" + (cvm::get_error() != COLVARS_OK ? "1" : "0") + "/" + vs_hex(v);
+        }
       } else if (cmd == "KS") {
         // successive key_lookup calls on ONE parser object, through ONE std::string object (same address every time)
         P p;
